@@ -371,6 +371,8 @@ def facade(sx, extra=None, random_only=False):
         import warnings
         preload()
         rep = {id(_random): RANDOM}
+        if sx.mode == 'sym':
+            rep[id(_math)] = MATH       # transparent on concrete numbers; symbolic isclose / exp / log
         undo = []
         for name, mod in list(sys.modules.items()):
             if mod is None or not name.startswith('msdm.'):
